@@ -990,6 +990,14 @@ func (c *Ctx) RuleRxRebuild() *Result {
 				keep[g] = true // replaced on purpose
 			}
 		}
+		// the group that is replaced on purpose delimits the old value: it must be greedy
+		if len(dropped) <= allowedDrop {
+			for _, g := range dropped {
+				if sub := rx.Capture(p.Re, g); sub != nil && hasLazyAny(sub) {
+					problems = append(problems, fmt.Sprintf("group %d of %s, whose text is replaced, is lazy: when the old value itself contains the delimiter that follows, only its head is replaced and the tail stays in the line (writing and reading back no longer agree)", g, p.Src))
+				}
+			}
+		}
 		// groups containing kept groups are kept for the coverage test
 		for g := 0; g <= n; g++ {
 			if covered(g) {
@@ -1094,4 +1102,20 @@ func onlyFeedsMessages(v ssa.Value, depth int) bool {
 		}
 	}
 	return n > 0
+}
+
+// hasLazyAny: a non-greedy repetition of "any character" inside re.
+func hasLazyAny(re *syntax.Regexp) bool {
+	switch re.Op {
+	case syntax.OpStar, syntax.OpPlus, syntax.OpQuest, syntax.OpRepeat:
+		if re.Flags&syntax.NonGreedy != 0 && (re.Sub[0].Op == syntax.OpAnyChar || re.Sub[0].Op == syntax.OpAnyCharNotNL) {
+			return true
+		}
+	}
+	for _, s := range re.Sub {
+		if hasLazyAny(s) {
+			return true
+		}
+	}
+	return false
 }
